@@ -58,6 +58,9 @@ fn main() {
     // panics are expected outcomes of some scripts: keep stderr quiet, remember the message
     std::panic::set_hook(Box::new(|info| {
         trace::note_panic(&info.to_string());
+        if std::env::var_os("RT_NATIVE_PANIC_STDERR").is_some() {
+            eprintln!("[panic] {info}");
+        }
     }));
     let stdin = std::io::stdin();
     let stdout = std::io::stdout();
